@@ -944,18 +944,28 @@ def parameter_values(tree):
     if arr is None:
         fail(init, "ParameterValues.__init__: boundaries are not kept as np.array(boundaries, ...)")
     stored = 0
+    # names that hold the array (or None): the array's own name and plain copies of it
+    holders = {arr}
+    for _ in range(3):
+        for s, names in touching:
+            ap = assign_parts(s)
+            if ap and is_name(ap[0]) and is_name(ap[1]) and ap[1].id in holders:
+                holders.add(ap[0].id)
     for s, names in touching:
-        if arr not in names:
+        if not (holders & names):
             continue
         ap = assign_parts(s)
-        if ap and is_name(ap[0], arr):
+        if ap and is_name(ap[0]) and ap[0].id in holders:
             v = ap[1]
             if isinstance(v, ast.Constant) and v.value is None:
                 continue
-            if isinstance(v, ast.Call) and u(v.func) in ("np.array", "numpy.array"):
+            if isinstance(v, ast.Call) and u(v.func) in ("np.array", "numpy.array") and ap[0].id == arr:
+                continue
+            if is_name(v) and v.id in holders:
                 continue
             fail(s, "ParameterValues.__init__: the boundaries array is rebound after it was created")
-        if ap and isinstance(ap[0], ast.Attribute) and is_name(ap[0].value, "self") and is_name(ap[1], arr):
+        if ap and isinstance(ap[0], ast.Attribute) and is_name(ap[0].value, "self") and is_name(ap[1]) \
+                and ap[1].id in holders:
             if ap[0].attr != "_boundaries":
                 fail(s, "ParameterValues.__init__: the boundaries array is kept under another attribute")
             stored += 1
